@@ -28,6 +28,34 @@ KINDS = {
 }
 
 
+def template_fields(t):
+    """the keys str.format(**captures) looks up for template t, read off its replacement-field grammar ({{ and }} are literal braces; a field is
+    name[!conversion][:format spec], the name taken verbatim - blanks, dots and brackets included); None for a template str.format cannot read"""
+    out, i = [], 0
+    while i < len(t):
+        c = t[i]
+        if c == '{':
+            if t[i + 1:i + 2] == '{':
+                i += 2
+                continue
+            j = t.find('}', i)
+            if j < 0:
+                return None
+            field = t[i + 1:j]
+            if '{' in field:
+                return None           # nested replacement fields inside a format spec: outside the templates exercised here
+            out.append(field.split('!')[0].split(':')[0])
+            i = j + 1
+        elif c == '}':
+            if t[i + 1:i + 2] == '}':
+                i += 2
+                continue
+            return None
+        else:
+            i += 1
+    return out
+
+
 def spec(tokens, template):
     """expected FormatSpec fields, or 'error'"""
     pos, caps = {}, {}
@@ -64,9 +92,9 @@ def spec(tokens, template):
     extra = caps if (has_desc and caps) else None
     custom = caps if (not has_desc and caps) else None
     if template:
-        for ref in re.findall(r'\{(\w+)\}', template):
-            if ref not in (custom or {}):
-                return 'error'
+        refs = template_fields(template)
+        if refs is None or any(ref not in (custom or {}) for ref in refs):
+            return 'error'
     return {'date_column': pos['date'], 'date_format': date_format, 'amount_column': pos['amount'], 'description_column': pos.get('description'),
             'location_column': pos.get('location'), 'custom_captures': custom, 'extra_fields': extra, 'negate_amount': neg, 'abs_amount': ab}
 
@@ -132,6 +160,28 @@ def inspect_roundtrip(headers):
         shutil.rmtree(tmp, ignore_errors=True)
 
 
+# spellings of a template reference that str.format accepts: a reference to a column that is not captured must be refused in every one of them
+TEMPLATE_SPELLINGS = ('{kind:>8}', '{kind!s}', '{kind!r:>4}', '{memo:>8} {kind}', '{memo!s}', '{ kind }', '{}', '{0}', '{kind} {}', '{kind.upper}', '{kind[0]}',
+                      '{kind} {{literal}}', '{kind} {', '{kind} }', 'plain text')
+
+
+def check_templates_expand():
+    """every template parse_format_string accepts can be expanded for every row (reading the file never fails on the template)"""
+    for fmt in ('{date},{kind},{amount}', '{date},{kind},{memo},{amount}'):
+        for template in ('{kind}', '{kind} - {memo}') + TEMPLATE_SPELLINGS:
+            O.case(('expand', fmt, template))
+            try:
+                sp_ = parse_format_string(fmt, template)
+            except ValueError:
+                continue
+            caps = {k: 'v' for k in (sp_.custom_captures or {})}
+            try:
+                sp_.description_template.format(**caps)
+            except Exception as e:
+                O.fail('C18.accepted_template_cannot_be_expanded', {'format': fmt, 'template': template}, 'template.format(**captures) works for a row', '%s: %s' % (type(e).__name__, e),
+                       'parse_format_string accepts the template; parsers.parse_generic_csv expands it with str.format(**captures)')
+
+
 def main():
     if O.witness:
         w = O.witness
@@ -150,12 +200,13 @@ def main():
             if L >= 5 and (n + O.seed) % (5 if O.tier == 'quick' else 2):
                 continue
             toks = [KINDS[k][0] for k in arr]
-            for template in (None, '{kind} - {memo}', '{kind}'):
+            for template in (None, '{kind} - {memo}', '{kind}') + (TEMPLATE_SPELLINGS if L <= 3 else ()):
                 if template and L > 4 and n % 3:
                     continue
                 check(toks, template)
             var = [KINDS[k][(n + i) % len(KINDS[k])] for i, k in enumerate(arr)]
             check(var, None)
+    check_templates_expand()
     for bad in (['{date', '{description}', '{amount}'], ['date', '{description}', '{amount}'], ['{date}', '{description}', '{amount}', ''],
                 ['{date}{description}', '{amount}'], ['{da te}', '{description}', '{amount}'], ['{}', '{description}', '{amount}', '{date}']):
         check(bad, None)
